@@ -168,12 +168,6 @@ func (rh *RealHost) Close() {
 	rh.Contractor.Close()
 }
 
-// Quiesce waits until every handler that was started has returned (handlers
-// run in their own goroutines; deferred releases happen there).
-func (rh *RealHost) Quiesce() {
-	rh.Server.Close()
-}
-
 // NoWallet is an rhp4.Wallet for hosts that are never asked to fund anything.
 type NoWallet struct{ Addr types.Address }
 
@@ -193,3 +187,51 @@ func (NoWallet) ReleaseInputs([]types.Transaction, []types.V2Transaction) {}
 
 // BroadcastV2TransactionSet implements rhp4.Wallet.
 func (NoWallet) BroadcastV2TransactionSet(types.ChainIndex, []types.V2Transaction) error { return nil }
+
+// RecWallet wraps the host's real wallet and counts what the server asked of
+// it (funding = outputs were reserved for an attempt).
+type RecWallet struct {
+	rhp4.Wallet
+
+	mu         sync.Mutex
+	Funded     int
+	Released   int
+	Broadcasts int
+}
+
+// FundV2Transaction implements rhp4.Wallet.
+func (rw *RecWallet) FundV2Transaction(txn *types.V2Transaction, amount types.Currency, useUnconfirmed bool) (types.ChainIndex, []int, error) {
+	ci, ts, err := rw.Wallet.FundV2Transaction(txn, amount, useUnconfirmed)
+	if err == nil {
+		rw.mu.Lock()
+		rw.Funded++
+		rw.mu.Unlock()
+	}
+	return ci, ts, err
+}
+
+// ReleaseInputs implements rhp4.Wallet.
+func (rw *RecWallet) ReleaseInputs(txns []types.Transaction, v2 []types.V2Transaction) {
+	rw.mu.Lock()
+	rw.Released++
+	rw.mu.Unlock()
+	rw.Wallet.ReleaseInputs(txns, v2)
+}
+
+// BroadcastV2TransactionSet implements rhp4.Wallet.
+func (rw *RecWallet) BroadcastV2TransactionSet(ci types.ChainIndex, txns []types.V2Transaction) error {
+	err := rw.Wallet.BroadcastV2TransactionSet(ci, txns)
+	if err == nil {
+		rw.mu.Lock()
+		rw.Broadcasts++
+		rw.mu.Unlock()
+	}
+	return err
+}
+
+// Counts returns (funded, released, broadcasts).
+func (rw *RecWallet) Counts() (int, int, int) {
+	rw.mu.Lock()
+	defer rw.mu.Unlock()
+	return rw.Funded, rw.Released, rw.Broadcasts
+}
